@@ -2594,11 +2594,20 @@ func c17ProxyReadsThroughWrappers(c *Ctx, r *Report, rule string) {
 	}
 	n := 0
 	var scan func(g *ssa.Function)
+	scanned := map[*ssa.Function]bool{}
 	scan = func(g *ssa.Function) {
+		if scanned[g] || len(scanned) > 40 {
+			return
+		}
+		scanned[g] = true
 		for _, a := range g.AnonFuncs {
 			scan(a)
 		}
 		for _, ci := range callsIn(g) {
+			// the pumps as functions or methods of the package (called, or started with go)
+			if h := ci.Common().StaticCallee(); h != nil && h.Pkg == fn.Pkg && len(h.Blocks) > 0 && h.Name() != "halfCloser" {
+				scan(h)
+			}
 			id := calleeID(ci)
 			src := -1
 			switch {
